@@ -267,6 +267,8 @@ enum Ev {
     Silence,
     /// unsolicited: with data?, RESTART indication?
     Uns(bool, bool),
+    /// the outstation sends its last unsolicited response again, byte for byte (it saw no confirm)
+    UnsRetry,
     Reconnect,
     /// advance to the next timer
     Tick,
@@ -291,6 +293,7 @@ fn alphabet() -> Vec<Ev> {
         Ev::IdealSplit(app::iin1::RESTART, 0),
         Ev::IdealSplit(app::iin1::NEED_TIME, 0),
         Ev::IdealSplit(app::iin1::CLASS_1_EVENTS, app::iin2::EVENT_BUFFER_OVERFLOW),
+        Ev::UnsRetry,
     ]
 }
 
@@ -382,6 +385,7 @@ impl Scenario for C17 {
         sim.call_now("add_poll", async move { assoc.add_poll(ReadRequest::all_objects(Variation::Group30Var0), Duration::from_secs(7)).await.is_ok() });
         let mut m = Model::new(self.cfg);
         let mut useq = 0u8;
+        let mut last_uns: Option<(Vec<u8>, bool, bool, u8)> = None;
         let mut nval = 0u8;
         let mut note = None;
         let first = sim.take_out();
@@ -526,14 +530,36 @@ impl Scenario for C17 {
                         expect_delivery = 1;
                         expect_confirm.push((true, useq));
                     }
+                    last_uns = Some((r.clone(), accepted, *data, i1));
                     sim.respond(&r);
                     sent = Some(r);
+                }
+                Ev::UnsRetry => {
+                    if let Some((r, was_accepted, data, i1)) = last_uns.clone() {
+                        m.process_iin(i1, 0);
+                        let seq = r[0] & 0x0F;
+                        let gate_open = !data || !self.cfg.i || m.integrity_done;
+                        if was_accepted && gate_open {
+                            // a repetition of a fragment already taken: confirmed again, not delivered again
+                            expect_confirm.push((true, seq));
+                        } else if was_accepted {
+                            // the gate has closed again (restart seen): data is neither delivered nor confirmed
+                        } else if gate_open {
+                            // ignored the first time (start-up gate), acceptable now: a first delivery
+                            expect_delivery = 1;
+                            expect_confirm.push((true, seq));
+                            last_uns = Some((r.clone(), true, data, i1));
+                        }
+                        sim.respond(&r);
+                        sent = Some(r);
+                    }
                 }
                 Ev::Reconnect => {
                     sim.disconnect();
                     sim.advance(500);
                     sim.connect();
                     m.reconnect();
+                    last_uns = None;
                 }
             }
             res.transitions += 1;
@@ -579,7 +605,7 @@ impl Scenario for C17 {
                 .filter(|f| f.len() == 2 && f[1] == fc::CONFIRM)
                 .map(|f| (f[0] & app::UNS != 0, f[0] & 0x0F))
                 .collect();
-            if matches!(ev, Ev::Uns(..)) {
+            if matches!(ev, Ev::Uns(..) | Ev::UnsRetry) {
                 if begins != expect_delivery || confirms != expect_confirm {
                     let key = if expect_delivery == 0 { "unsolicited-data-accepted-before-integrity-poll" } else { "acceptable-unsolicited-not-delivered-or-confirmed" };
                     res.violation = Some(Violation::new(
